@@ -40,6 +40,7 @@ type frame struct {
 	callpos          token.Pos
 	curInstr         ssa.Instruction
 	g                *goroutine
+	skipPhis         bool
 }
 
 type Interp struct {
@@ -67,6 +68,16 @@ type Interp struct {
 	sched *scheduler
 
 	lockLog *lockLogger
+
+	// if-conversion
+	specDepth     int
+	noMerge       map[*ssa.If]bool
+	mergeCache    map[*ssa.Function]*mergeInfo
+	condPureCache map[*ssa.BasicBlock]bool
+	pureFnCache   map[*ssa.Function]bool
+	Merges        int64
+	MergeAborts   int64
+	disableMerge  bool
 
 	params    map[string]string
 	vector    []replayItem // concrete mode (selfcheck)
@@ -234,8 +245,29 @@ func visitInstr(fr *frame, instr ssa.Instruction) continuation {
 	case *ssa.Store:
 		it.store(fr, deref(instr.Addr.Type()), fr.get(instr.Addr), fr.get(instr.Val))
 	case *ssa.If:
+		c := fr.get(instr.Cond).(*Term)
+		if !c.isConst() {
+			switch it.ex.evalBool(c, 8) {
+			case 1:
+				c = tTrue
+			case 0:
+				c = tFalse
+			}
+		}
+		if !c.isConst() {
+			switch it.tryMerge(fr, instr, c) {
+			case mergeJoin:
+				return kJump
+			case mergeReturn:
+				return kReturn
+			}
+		}
 		succ := 1
-		if it.ifCond(fr, instr) {
+		if c.isConst() {
+			if c.cv != 0 {
+				succ = 0
+			}
+		} else if it.ex.branch(c) {
 			succ = 0
 		}
 		fr.prevBlock, fr.block = fr.block, fr.block.Succs[succ]
@@ -371,12 +403,21 @@ func (it *Interp) call(caller *frame, callpos token.Pos, fn Value, args []Value)
 	panic(fmt.Sprintf("cannot call %T", fn))
 }
 
+// callBody interprets fn's SSA body, bypassing the model table.
+func (it *Interp) callBody(caller *frame, fn *ssa.Function, args []Value) Value {
+	return it.callSSA2(caller, 0, fn, args, nil, true)
+}
+
 func (it *Interp) callSSA(caller *frame, callpos token.Pos, fn *ssa.Function, args []Value, env []Value) Value {
+	return it.callSSA2(caller, callpos, fn, args, env, false)
+}
+
+func (it *Interp) callSSA2(caller *frame, callpos token.Pos, fn *ssa.Function, args []Value, env []Value, noModel bool) Value {
 	fr := &frame{it: it, caller: caller, fn: fn, callpos: callpos}
 	if caller != nil {
 		fr.g = caller.g
 	}
-	if fn.Parent() == nil {
+	if fn.Parent() == nil && !noModel {
 		if res, handled := it.callModel(fr, fn, args); handled {
 			return res
 		}
@@ -490,6 +531,10 @@ func executePhis(fr *frame) []ssa.Instruction {
 		}
 	}
 	nonPhis := fr.block.Instrs[firstNonPhi:]
+	if fr.skipPhis {
+		fr.skipPhis = false
+		return nonPhis
+	}
 	if firstNonPhi > 0 {
 		phis := fr.block.Instrs[:firstNonPhi]
 		predIndex := -1
